@@ -4,6 +4,7 @@
   `to_authorship_log_and_initial_working_log`).
 -/
 import GitAiModel.Lemmas.Split3
+import GitAiModel.Lemmas.SysPartial
 namespace GitAi.Split3
 
 /-! ## 1. Every attributed working-tree line lands in exactly one bucket -/
@@ -185,7 +186,91 @@ theorem split_outputs_wf (attrs : List LineAttr) (committed unstagedRaw pureIns 
 
 end GitAi.Split3
 
+/-! ## History level (Model/Sys.lean): partial commits carry pending AI work to the commit that
+    finally contains it, once -/
+
+namespace GitAi.Sys
+
+/-- **every commit of every history is exact.** Take ANY history from a clean start made of human
+    edits, agent edits (any sessions), human checkpoints, staging of arbitrary mixes of HEAD and
+    working-tree content (`git add -p`) and commits, valid in the sense of `ValidOps2` (fresh ids for
+    new lines; a person does not edit between a partial commit and the next checkpoint — the
+    known finding). Then at every commit of the history, the note written lists exactly the
+    staged lines that the commit adds, that are still in the working tree, and whose ghost author
+    is an AI session — under that session. -/
+theorem every_commit_exact (h0 : List Nat) (g0 : Nat → Author) (hnd : h0.Nodup)
+    (pre post : List Op) (hv : ValidOps2 (cleanSpec h0 g0) (pre ++ .commit :: post)) :
+    let sp := specRun (cleanSpec h0 g0) pre
+    (step sp.st .commit).notes.head? = some (expectedPartialNote sp) := by
+  intro sp
+  obtain ⟨hv1, hv2⟩ := validOps2_append _ pre (.commit :: post) hv
+  have hinv : Inv2 sp := specRun_inv2 _ pre (cleanSpec_inv2 h0 g0 hnd) hv1
+  exact (commit_spec sp hinv hv2.1).1
+
+/-- an entry of the expected note: the committed line is new, present, and its ghost is the session -/
+theorem mem_expectedPartialNote (sp : Spec) (i s : Nat) (h : (i, s) ∈ expectedPartialNote sp) :
+    ∃ y, (i, y) ∈ enum1 sp.st.index ∧ y ∉ sp.st.head ∧ y ∈ sp.st.work ∧ sp.g y = some s := by
+  simp only [expectedPartialNote, List.mem_filterMap] at h
+  obtain ⟨⟨i', y⟩, hm, hf⟩ := h
+  simp only at hf
+  by_cases hh : y ∈ sp.st.head
+  · simp [hh] at hf
+  · by_cases hw : y ∈ sp.st.work
+    · cases hg : sp.g y with
+      | none => simp [hh, hw, hg] at hf
+      | some s' =>
+        simp [hh, hw, hg] at hf
+        obtain ⟨rfl, rfl⟩ := hf
+        exact ⟨y, hm, hh, hw, hg⟩
+    · simp [hh, hw] at hf
+
+/-- **carried to the commit that finally contains it (C04).** A line with ghost author `s` that is in
+    the working tree at some commit but not part of that commit is not listed by it; if a later
+    commit of the same valid history stages it (at position `i`) while it is still in the working
+    tree and has never been committed, that later commit lists it — under `s`. -/
+theorem pending_line_carried (h0 : List Nat) (g0 : Nat → Author) (hnd : h0.Nodup)
+    (pre mid post : List Op)
+    (hv : ValidOps2 (cleanSpec h0 g0) (pre ++ .commit :: (mid ++ .commit :: post)))
+    (y s i : Nat) :
+    let sp1 := specRun (cleanSpec h0 g0) pre
+    let sp2 := specRun (cleanSpec h0 g0) (pre ++ .commit :: mid)
+    y ∈ sp1.seen → sp1.g y = some s → y ∉ sp1.st.index →
+    (i, y) ∈ enum1 sp2.st.index → y ∉ sp2.st.head → y ∈ sp2.st.work →
+    (∀ j, (j, s) ∈ expectedPartialNote sp1 → ∀ z, (j, z) ∈ enum1 sp1.st.index → z ≠ y) ∧
+    (i, s) ∈ expectedPartialNote sp2 := by
+  intro sp1 sp2 hseen hg hnx hix hnh hw
+  constructor
+  · intro j _ z hz he
+    subst he
+    exact hnx (mem_enumFrom' 1 _ j z hz).1
+  · have hrun : sp2 = specRun sp1 (.commit :: mid) := by
+      simp [sp2, sp1, specRun, List.foldl_append]
+    have hg2 : sp2.g y = some s := by
+      rw [hrun, (specRun_g_seen sp1 _ y hseen).1]; exact hg
+    simp only [expectedPartialNote, List.mem_filterMap]
+    refine ⟨(i, y), hix, ?_⟩
+    simp [hnh, hw, hg2]
+
+/-- non-vacuity: AI session 7 adds id 10; only the HEAD content is staged and committed (line 10
+    stays pending); after a checkpoint everything is committed: the second note carries line 3. -/
+example : (run { head := [1, 2, 3], index := [1, 2, 3], work := [1, 2, 3] }
+    [.aiEdit 7 [1, 2, 10, 3], .stage [1, 2, 3], .commit, .humanCheckpoint, .stageAll, .commit]).notes
+    = [[(3, 7)], []] := by decide
+
+/-- the excluded region (known finding): a person inserts line 99 just above the pending AI line
+    (id 10, pending at line 3) before any checkpoint; INITIAL's bare line number 3 now points at
+    the person's line: the note credits session 7 with line 3 (id 99) and loses the AI line. -/
+theorem witness_pending_edited_before_checkpoint :
+    (run { head := [1, 2, 3], index := [1, 2, 3], work := [1, 2, 3] }
+      [.aiEdit 7 [1, 2, 10, 3], .stage [1, 2, 3], .commit, .humanEdit [1, 2, 99, 10, 3], .stageAll, .commit]).notes.head?
+      = some [(3, 7)] := by decide
+
+end GitAi.Sys
+
 #print axioms GitAi.Split3.classify_spec
 #print axioms GitAi.Split3.split_coordinates_partial
 #print axioms GitAi.Split3.witness_unstaged_deletion
 #print axioms GitAi.Split3.split_outputs_wf
+#print axioms GitAi.Sys.every_commit_exact
+#print axioms GitAi.Sys.pending_line_carried
+#print axioms GitAi.Sys.witness_pending_edited_before_checkpoint
